@@ -77,6 +77,15 @@ def check(run, ctx):
     lcf = repo.func("src.cli.utils.load_config_file")
     same_loader = any(isinstance(n, ast.Call) and ast.unparse(n.func).endswith("config_loader.load") for n in ast.walk(lcf.node))
     (run.ok(A3, "--config loader", "orchestrator.config_loader.load") if same_loader else run.finding(A3, "load_config_file", "loader", "--config is not parsed by the shared LinterConfigLoader", lcf.loc))
+    # --config replaces the auto-discovered configuration (as config_file= does in the library, which loads only that file)
+    repl = [n for n in inline.flat_nodes(repo, lcf) if isinstance(n, ast.Assign) and any(isinstance(t, ast.Attribute) and t.attr == "config" for t in n.targets) and any(is_call_named(c, "load") for c in ast.walk(n.value))]
+    merged = [n for n in inline.flat_nodes(repo, lcf) if isinstance(n, ast.Call) and isinstance(n.func, ast.Attribute) and n.func.attr in ("update", "setdefault") and isinstance(n.func.value, ast.Attribute) and n.func.value.attr == "config"]
+    merged += [n for n in inline.flat_nodes(repo, lcf) if isinstance(n, ast.Assign) and any(isinstance(t, ast.Attribute) and t.attr == "config" for t in n.targets) and isinstance(n.value, (ast.BinOp, ast.Dict)) and any(isinstance(x, ast.Attribute) and x.attr == "config" for x in ast.walk(n.value))]
+    if repl and not merged:
+        run.ok(A3, "--config replaces", f"{norm(repl[0])[:80]}")
+    else:
+        w_ = merged[0] if merged else lcf.node
+        run.finding(A3, "load_config_file", f"merged:{norm(w_)[:60] if merged else 'no-assignment'}", f"load_config_file no longer replaces the orchestrator's configuration by the --config file ({norm(w_)[:80] if merged else 'no assignment of the loaded mapping'}): sections of the auto-discovered project file that the --config file does not mention stay in force in the CLI, while Linter(config_file=...) loads the named file only", f"{lcf.module.rel}:{getattr(w_, 'lineno', lcf.node.lineno)}")
     fv = repo.func_by_role("src.api.Linter._filter_violations", "keeps the violations whose rule_id is in the requested rule list",
                            lambda g: any(isinstance(n, ast.Compare) and isinstance(n.ops[0], ast.In) and ast.unparse(n.left).endswith("rule_id") for n in ast.walk(g.node)))
     ok = any(isinstance(n, ast.Compare) and isinstance(n.ops[0], ast.In) and ast.unparse(n.left).endswith("rule_id") for n in ast.walk(fv.node))
